@@ -288,9 +288,15 @@ Plan gen_plan(const Profile &pf, uint64_t seed) {
     };
     // ---- assemble: definitions (some late), then interleave streams
     std::vector<Op> defs_src, body;
+    // The reader and the writer keep definition strings in 1 MiB blocks: some programs carry enough string bytes to cross a block boundary
+    // (knob too large for the miss path otherwise); misuse programs rarely pass a single string that cannot fit a block at all.
+    const bool long_strings = (pf.prop == "C13" || pf.prop == "C10" || pf.prop == "C17") && r.chance(pf.prop == "C13" ? 0.12 : 0.04);
+    const bool giant_string = pf.misuse && r.chance(0.02);
+    auto long_len = [&](int cur) { return (long_strings && cur > 0 && r.chance(0.8)) ? (int) r.range(30000, 140000) : cur; };
     for (size_t i = 0; i < srcs.size(); ++i) {
         Op o; o.kind = OP_SRC; o.src = srcs[i]; o.gs = r.next();
-        for (int k = 0; k < 5; ++k) { int c = (int) r.below(10); o.sl[k] = c == 0 ? -1 : c == 1 ? 0 : c < 9 ? (int) r.range(1, 24) : (int) r.range(25, 300); }
+        for (int k = 0; k < 5; ++k) { int c = (int) r.below(10); o.sl[k] = c == 0 ? -1 : c == 1 ? 0 : c < 9 ? (int) r.range(1, 24) : (int) r.range(25, 300); o.sl[k] = long_len(o.sl[k]); }
+        if (giant_string && i == 0) o.sl[(int) r.below(5)] = (1 << 20) - 6 + (int) r.below(12);
         defs_src.push_back(o);
     }
     struct Stream { std::vector<Op> ops; size_t pos = 0; };
@@ -298,7 +304,7 @@ Plan gen_plan(const Profile &pf, uint64_t seed) {
     std::vector<Op> sigdefs;
     for (auto &s : sigs) {
         Op o; o.kind = OP_SIG; o.sig = s.sig; o.src = s.src; o.dtype = s.dtype; o.sigtype = s.sigtype; for (int k = 0; k < 7; ++k) o.p[k] = s.p[k];
-        o.gs = r.next(); for (int k = 0; k < 2; ++k) { int c = (int) r.below(10); o.sl[k] = c == 0 ? -1 : c == 1 ? 0 : c < 9 ? (int) r.range(1, 24) : (int) r.range(25, 300); }
+        o.gs = r.next(); for (int k = 0; k < 2; ++k) { int c = (int) r.below(10); o.sl[k] = c == 0 ? -1 : c == 1 ? 0 : c < 9 ? (int) r.range(1, 24) : (int) r.range(25, 300); o.sl[k] = long_len(o.sl[k]); }
         sigdefs.push_back(o);
         // merge data + annos + utc of this signal into one stream keeping the order within each kind
         Stream st;
